@@ -4,6 +4,7 @@
    translates to the exact statistic of the original values. *)
 From Coq Require Import ZArith List Bool Lia ZifyBool Sorted.
 From Centro Require Import Base.Sx Model.Median Spec.MedianSpec Proofs.MedianCheck.
+From Centro Require Model.VecC18 Model.RankC18.
 Import ListNotations.
 Open Scope Z_scope.
 
@@ -230,23 +231,42 @@ Proof.
   - apply HS. intro E. apply Hne. destruct (window data mask radius i j); [reflexivity|discriminate].
 Qed.
 
-(* the model's wrapper is exactly this composition (ranked branch, no IndexError) *)
-Theorem wrapper_model_shape v intlike data mask radius percent o :
-  wrapper v intlike data mask radius percent = WOut true o ->
+(* the model's wrapper is exactly this composition (ranked branch, at most 255 distinct values) *)
+Theorem wrapper_model_shape v intlike orders data mask radius percent o :
   let u := sort_u (masked_vals data mask) in
-  (length u <= 255)%nat /\ o = map (map (unrk u)) (kernel v (rank_image u data mask) mask radius percent).
+  (length u <= 255)%nat ->
+  wrapper v intlike orders data mask radius percent = WOut true o ->
+  o = map (map (unrk u)) (kernel v (rank_image u data mask) mask radius percent).
 Proof.
-  unfold wrapper. destruct (forallb (forallb negb) mask); [discriminate|]. cbv zeta.
+  intros u Hu. unfold wrapper. destruct (forallb (forallb negb) mask); [discriminate|]. cbv zeta.
   match goal with |- context [if ?c then _ else _] => destruct c end; [discriminate|].
-  destruct (255 <? length (sort_u (masked_vals data mask)))%nat eqn:E1; [discriminate|].
+  fold u. destruct (255 <? length u)%nat eqn:E1; [apply Nat.ltb_lt in E1; lia|].
   match goal with |- context [if ?c then _ else _] => destruct c end; [|discriminate].
-  intros E. inversion E. split; [apply Nat.ltb_ge in E1; lia|reflexivity].
+  intros E. inversion E. reflexivity.
+Qed.
+
+(* with more than 255 distinct values the ranks and the table are those of the C18 model of
+   rank_order(data[mask], nbins=255) for the recorded argsort orders *)
+Theorem wrapper_model_merged v intlike orders data mask radius percent o :
+  let mv := masked_vals data mask in
+  (255 < length (sort_u mv))%nat ->
+  wrapper v intlike orders data mask radius percent = WOut true o ->
+  exists r tr, RankC18.rank_order_bins_with (RankC18.replay_oracle orders) (VecC18.argsort mv) mv 255 = Some (r, tr) /\
+    o = map (map (fun x => nth (Z.to_nat x) tr 0)) (kernel v (fill_img mask (map Z.of_nat r)) mask radius percent).
+Proof.
+  intros mv Hu. unfold wrapper. destruct (forallb (forallb negb) mask); [discriminate|]. cbv zeta.
+  match goal with |- context [if ?c then _ else _] => destruct c end; [discriminate|].
+  fold mv. destruct (255 <? length (sort_u mv))%nat eqn:E1; [|apply Nat.ltb_ge in E1; lia].
+  destruct (RankC18.rank_order_bins_with (RankC18.replay_oracle orders) (VecC18.argsort mv) mv 255) as [[r tr]|];
+    [|discriminate].
+  match goal with |- context [if ?c then _ else _] => destruct c end; [|discriminate].
+  intros E. inversion E. exists r, tr. split; reflexivity.
 Qed.
 
 (* ... and on the direct path (integer data whose masked pixels lie in 0..255) it is the kernel on
    the masked image itself *)
-Theorem wrapper_model_direct v intlike data mask radius percent o :
-  wrapper v intlike data mask radius percent = WOut false o ->
+Theorem wrapper_model_direct v intlike orders data mask radius percent o :
+  wrapper v intlike orders data mask radius percent = WOut false o ->
   o = data /\ forallb (forallb negb) mask = true \/
   intlike = true /\ Forall (fun x => 0 <= x <= 255) (masked_vals data mask) /\
   o = kernel v (map_img (fun d (m : bool) => if m then d else 0) data mask) mask radius percent.
@@ -256,10 +276,14 @@ Proof.
   - destruct (forallb (fun x => (0 <=? x) && (x <=? 255)) (masked_vals data mask)) eqn:E1.
     + intros E. inversion E. right. split; [reflexivity|]. split; [|reflexivity].
       rewrite forallb_forall in E1. apply Forall_forall. intros x Hx. specialize (E1 x Hx). lia.
-    + destruct (255 <? length (sort_u (masked_vals data mask)))%nat; [discriminate|].
+    + destruct (255 <? length (sort_u (masked_vals data mask)))%nat.
+      * destruct (RankC18.rank_order_bins_with _ _ _ _) as [[r tr]|]; [|discriminate].
+        match goal with |- context [if ?c then _ else _] => destruct c end; discriminate.
+      * match goal with |- context [if ?c then _ else _] => destruct c end; discriminate.
+  - destruct (255 <? length (sort_u (masked_vals data mask)))%nat.
+    + destruct (RankC18.rank_order_bins_with _ _ _ _) as [[r tr]|]; [|discriminate].
       match goal with |- context [if ?c then _ else _] => destruct c end; discriminate.
-  - destruct (255 <? length (sort_u (masked_vals data mask)))%nat; [discriminate|].
-    match goal with |- context [if ?c then _ else _] => destruct c end; discriminate.
+    + match goal with |- context [if ?c then _ else _] => destruct c end; discriminate.
 Qed.
 
 Example wrapper_exact_ex :
